@@ -416,6 +416,11 @@ def scan_loop_ok(fv, loop, acc_is_field):
             break
     if X != BUFF:
         return False, "scan iterates `%s`, expected every buffered m-mer in index order (0..buff.len() or buff.iter().enumerate())" % show(fv.term(loop["iter"]))
+    # temporaries bound inside the scan body (`let cand = buff[j];`) are not state
+    inner_ids = set(x["pat"]["id"] for x in walk(loop["body"]) if x.get("k") == "let" and x.get("pat", {}).get("k") == "pbind")
+    for sp in paths:
+        for k_ in [k_ for k_ in sp.state if k_[0] == "local" and k_[2] in inner_ids]:
+            del sp.state[k_]
     hit = [sp for sp in paths if sp.state]
     miss = [sp for sp in paths if not sp.state]
     if len(hit) != 1 or len(miss) != 1:
